@@ -1,18 +1,74 @@
-"""(development helper) prints the generated parts of DESIGN.md §0: theorem / finding counts per
-property and the list of fix: commits in /repo."""
-import collections, glob, json, os, re, subprocess
+"""(development helper) rewrites the generated parts of DESIGN.md §0 — the status table per
+property (theorem counts of Props/<Id>.lean, findings of known_findings.json) and the list of
+fix: commits in /repo — between their marker lines.   python3 harness/mk_design_tables.py"""
+import collections, json, os, re, subprocess
 V = os.path.dirname(os.path.dirname(os.path.abspath(__file__)))
-k = json.load(open(os.path.join(V, 'known_findings.json')))
-c = collections.Counter((e['property'], e['status']) for e in k['findings'])
-print('| id | theorems | known | fixed |\n|---|---|---|---|')
-for i in range(1, 21):
-    pid = 'C%02d' % i
-    f = os.path.join(V, 'lean', 'Props', pid + '.lean')
-    n = len(re.findall(r'^theorem ', open(f).read(), re.M)) if os.path.exists(f) else 0
-    print('| %s | %d | %d | %d |' % (pid, n, c[(pid, 'known')], c[(pid, 'fixed')]))
-out = subprocess.run(['git', '-C', '/repo', 'log', '--reverse', '--format=%h %s'],
-                     stdout=subprocess.PIPE).stdout.decode()
-fx = [l for l in out.splitlines() if re.match(r'^[0-9a-f]+ fix:', l)]
-print('\n%d fix: commits' % len(fx))
-for l in fx:
-    print('* `%s` %s' % (l.split()[0], l.split(' ', 2)[2]))
+MODEL = {'C01': 'Value, Bson, Filter (+Expr for `$expr`)', 'C02': 'Update',
+         'C03': 'Pipeline (on Filter, Sort, Project, Expr)', 'C04': 'ExprOps, Expr',
+         'C05': 'Store, Ops', 'C06': 'Store', 'C07': 'Heap', 'C08': 'Store, Ops',
+         'C09': 'Store (TTL)', 'C10': 'Store, Filter', 'C11': 'Sort', 'C12': 'Project',
+         'C13': 'Store (upsert path), Update', 'C14': 'Store, FindModify',
+         'C15': 'FindModify (bulk, Builder)', 'C16': 'AggHeap + Generated/AggDiscipline',
+         'C17': 'Catalog', 'C18': 'DateTime',
+         'C19': 'RWLock* + Generated/RWLockProtocol, LockDiscipline, certificates',
+         'C20': 'Vocab + Generated/Tables, Options, Vocab'}
+TIE = {'C01': 'per-case correspondence (>10⁶ cases validated), find-vs-matcher oracle',
+       'C02': 'chained update histories + independent reference `refupdate.py` + update_many vs '
+              'per-document twin',
+       'C03': 'pipeline correspondence + direct oracles (find path, partition, join, flat map, '
+              'entry merge, prefix law)',
+       'C04': 'type-directed expressions through `$project`, `$addFields`, `find({$expr})`',
+       'C05': 'histories (incl. colliding datetime `_id`s)',
+       'C06': 'histories + pairwise oracle', 'C07': 'aliasing probes on real objects',
+       'C08': 'histories with ~20 % failing ops, insert_many / bulk_write twins',
+       'C09': 'clock histories with unobserved steps + shadow oracle',
+       'C10': 'final filter through 9 entry points on twins (+ tz_aware handle, pattern values)',
+       'C11': 'cursor method orders, skip/limit, array and ObjectId keys',
+       'C12': 'projections incl. `$slice`/`$elemMatch`',
+       'C13': 'upsert histories + seed/operator reference + twin without upsert',
+       'C14': 'histories + before/after oracle',
+       'C15': 'bulk_write and builder-API histories + one-at-a-time twin',
+       'C16': 'discipline translator + model correspondence + before/after oracles on real objects',
+       'C17': 'catalog histories over three clients (per-step and end-only observation)',
+       'C18': 'all entry points with aware/naive/µs datetimes',
+       'C19': 'translators + deterministic scheduler on real threads + release and index-walk probes',
+       'C20': 'translator (AST + run-time tables) + option probes + lazy-context probes'}
+
+
+def main():
+    k = json.load(open(os.path.join(V, 'known_findings.json')))
+    by = collections.defaultdict(lambda: {'known': [], 'fixed': []})
+    for e in k['findings']:
+        by[e['property']][e['status']].append(e['id'])
+    rows = []
+    for i in range(1, 21):
+        p = 'C%02d' % i
+        n = len(re.findall(r'^theorem ', open(os.path.join(V, 'lean', 'Props', p + '.lean')).read(),
+                           re.M))
+        kn, fx = by[p]['known'], by[p]['fixed']
+        ks = ', '.join(kn) if len(kn) <= 8 else ', '.join(kn[:6]) + ', …'
+        rows.append('| %s | %s | %d | %s | %d: %s | %d |'
+                    % (p, MODEL[p], n, TIE[p], len(kn), ks or '–', len(fx)))
+    table = ('| id | model (MongoModel/) | theorems | tie to /repo | known findings | fixed |\n'
+             '|---|---|---|---|---|---|\n' + '\n'.join(rows) + '\n')
+    out = subprocess.run(['git', '-C', '/repo', 'log', '--reverse', '--format=%h %s'],
+                         stdout=subprocess.PIPE).stdout.decode()
+    fx = [l for l in out.splitlines() if re.match(r'^[0-9a-f]+ fix:', l)]
+    fixlist = '\n'.join('* `%s` %s' % (l.split()[0], l.split(' ', 2)[2]) for l in fx)
+    path = os.path.join(V, 'DESIGN.md')
+    s = open(path).read()
+    a = s.index('| id | model (MongoModel/) | theorems |')
+    b = s.index('All 20 properties are claimed')
+    s = s[:a] + table + '\n' + s[b:]
+    a = s.index('**`fix:` commits in /repo** (')
+    b = s.index('**Seeded regressions**')
+    head = s[a:b].split('\n\n')[0]
+    head = re.sub(r'\*\*`fix:` commits in /repo\*\* \(\d+;', '**`fix:` commits in /repo** (%d;' % len(fx),
+                  head)
+    s = s[:a] + head + '\n\n' + fixlist + '\n\n' + s[b:]
+    open(path, 'w').write(s)
+    print('DESIGN.md: %d fix commits, table rewritten' % len(fx))
+
+
+if __name__ == '__main__':
+    main()
